@@ -500,11 +500,12 @@ class WriterExtractor:
                     tag_e = k.value
             tag = self._tag(tag_e, fi, cls_q, env) or self.default_tags[c.func.attr]
             node = WNode("cons", PUSH_KINDS[c.func.attr], tag, line=s.lineno, func=fi.qualname)
-            w[1].append(node)
             env2 = dict(env)
             if item.optional_vars is not None and isinstance(item.optional_vars, ast.Name):
                 env2[item.optional_vars.id] = ("writer", node.children)
             r = self._block(s.body, env2, fi, cls_q)
+            # a child writer hands its octets to the parent when its block is left: what the block itself wrote to the parent comes first
+            w[1].append(node)
             for k2, v2 in env2.items():
                 if k2 not in env:
                     env[k2] = v2
